@@ -195,6 +195,8 @@ def effect(step):
     """(in_range, bits or None, child specs or None, nominal bit size or None) of a non-snake store"""
     k = step['op']
     try:
+        if k == 'rebind':
+            return True, '', [], 0
         if k in ('bit', 'bool'):
             return True, R.bit(step['v']), [], 1
         if k == 'bits':
@@ -370,6 +372,14 @@ def _prepare(ctx, step):
 
 def _do_store(b, step, arg):
     k = step['op']
+    if k == 'rebind':
+        # the caller swaps the builder's containers for equal copies through the public setters (snapshot / roll-back idiom);
+        # every later store and its capacity check concern what the builder holds NOW
+        if step['what'] != 'refs':
+            b.bits = b.bits.copy()
+        if step['what'] != 'bits':
+            b.refs = list(b.refs)
+        return b
     if k == 'bit':
         f = step.get('form', 'int')
         return b.store_bit(step['v'] if f == 'int' else str(step['v']) if f == 'str' else bool(step['v']))
@@ -379,6 +389,12 @@ def _do_store(b, step, arg):
         f, v = step.get('form', 'str'), step['v']
         if f == 'list':
             return b.store_bits([int(c) for c in v])
+        if f == 'tuple':
+            return b.store_bits(tuple(int(c) for c in v))
+        if f == 'gen':
+            return b.store_bits(int(c) for c in v)
+        if f == 'iter':
+            return b.store_bits(iter([int(c) for c in v]))
         if f == 'ba':
             from bitarray import bitarray
             return b.store_bits(bitarray(v))
@@ -468,6 +484,12 @@ def check_program(case):
             mbits = gbits
             mrefs = [(c, _walk_depth(c, memo)) for c in grefs]
         else:
+            if not ok and step.get('form') in ('gen', 'iter'):
+                # a one-shot iterator of bits has no length to check beforehand: refusing it is accepted, storing it wrongly or
+                # past the capacity (invariant above) is not; the model follows the builder
+                mbits = gbits
+                mrefs = [(c, _walk_depth(c, memo)) for c in grefs]
+                continue
             if not ok:
                 return Fail(f'store/{cls}/refused-though-fits/{exc_sig(e)}', f'{where}: {e!r}')
             if 'snake' in v:
@@ -695,7 +717,7 @@ def _draw_op(draw, kind, left, rleft):
         return {'op': 'bool', 'v': draw(st.booleans())}
     if kind == 'bits':
         n = _size_near(draw, left, 0, 1030)
-        return {'op': 'bits', 'v': draw(_bits01(n)), 'form': draw(st.sampled_from(['str', 'str', 'list', 'ba', 'tvm']))}
+        return {'op': 'bits', 'v': draw(_bits01(n)), 'form': draw(st.sampled_from(['str', 'str', 'list', 'ba', 'tvm', 'tuple', 'gen', 'iter']))}
     if kind in ('uint', 'int'):
         return _draw_uint(draw, kind == 'int', left)
     if kind == 'bytes':
@@ -761,6 +783,8 @@ def _draw_op(draw, kind, left, rleft):
         spec = _cellspec(draw, rem + skip, total_r)
         return {'op': 'slice', 'c': spec, 'skip': skip, 'lrefs': lrefs,
                 'route': draw(st.sampled_from(['begin_parse', 'begin_parse', 'copy', 'plain', 'from_cell']))}
+    if kind == 'rebind':
+        return {'op': 'rebind', 'what': draw(st.sampled_from(['bits', 'refs', 'both']))}
     if kind == 'snake_bytes':
         n = draw(st.one_of(st.integers(0, 8), st.sampled_from([max(0, left // 8 + d) for d in (-1, 0, 1, 2)]),
                            st.sampled_from([126, 127, 128, 254, 255, 300])))
@@ -773,7 +797,7 @@ def _draw_op(draw, kind, left, rleft):
 
 _KINDS = [('bit', 2), ('bool', 1), ('bits', 3), ('uint', 3), ('int', 3), ('bytes', 2), ('string', 2), ('coins', 3),
           ('var_uint', 2), ('var_int', 2), ('addr_none', 1), ('addr_std', 2), ('addr_ext', 2), ('ref', 3), ('maybe_ref', 3),
-          ('dict', 2), ('cell', 4), ('slice', 6), ('snake_bytes', 3), ('snake_string', 1)]
+          ('dict', 2), ('cell', 4), ('slice', 6), ('snake_bytes', 3), ('snake_string', 1), ('rebind', 2)]
 _KIND_POOL = [k for k, w in _KINDS for _ in range(w)]
 _RELS = ['exact', 'exact', 'exact', 'over1', 'over1', 'over1', 'under1', 'under1', 'asis', 'asis', 'asis']
 _DELTA = {'exact': 0, 'over1': -1, 'under1': 1}
@@ -833,6 +857,9 @@ def _stream_bits(tag, n):
 def grid_values(case):
     """(good values, bad values, writer, nominal size of the largest good value)"""
     k = case['kind']
+    if k in ('uint', 'int') and case['w'] == 0:
+        # a stated width of 0 bits holds no value but 0: anything else "does not fit the stated width"
+        return [], [1, -1, 5, 255, 1 << 64, -(1 << 64)], (lambda v: ''), 0
     if k == 'uint':
         w = case['w']
         hi = (1 << w) - 1
@@ -909,6 +936,9 @@ def enum_range(tier):
     def fills(size):
         room = MAXB - size
         return sorted({0, 1, 7, room // 2, max(0, room - 1), room})
+    for kind in ('uint', 'int'):
+        for f in (0, 1, 8, 1022, 1023):
+            yield {'kind': kind, 'w': 0, 'fill': f}
     for w in range(1, 257):
         for f in fills(w):
             yield {'kind': 'uint', 'w': w, 'fill': f}
